@@ -186,9 +186,23 @@ UserTerminate(e) ==
   /\ LET s1 == Ev(SendTerm(EndState(e), FALSE, 0), EvUserTerm(e))
      IN Commit(e, s1) /\ UNCHANGED <<nDeliv, nAdv, advAcked, rxStuck>>
 
+\* deviation close_reports_zero_length_success (a seeded change, round 8): close() reports the transfers still
+\* awaiting their final ACK, 'success' when the acknowledged length equals the length - which a zero-length bundle
+\* satisfies before anything was acknowledged (or even written)
+RECURSIVE CloseReports(_, _, _)
+CloseReports(x, e, ids) ==
+  IF ids = {} THEN x
+  ELSE LET i == CHOOSE j \in ids : TRUE
+       IN CloseReports(Ev(x, EvSig(e, "send_bundle_finished", i, 0, "success")), e, ids \ {i})
+ZeroLenAwaitingAck(s, e) ==
+  {i \in s.txAck : \E k \in DOMAIN queued[e] : queued[e][k].id = i /\ queued[e][k].len = 0}
+
 UserClose(e) ==
   /\ Idle /\ e \in AllowClose /\ ph[e].open /\ ph[e].started
-  /\ Commit(e, Close(Ev(EndState(e), EvUserClose(e)), e)) /\ UNCHANGED <<nDeliv, nAdv, advAcked, rxStuck>>
+  /\ LET s0 == Ev(EndState(e), EvUserClose(e))
+         s1 == IF "close_reports_zero_length_success" \in Dev THEN CloseReports(s0, e, ZeroLenAwaitingAck(s0, e)) ELSE s0
+     IN Commit(e, Close(s1, e))
+  /\ UNCHANGED <<nDeliv, nAdv, advAcked, rxStuck>>
 
 UserPop(e) ==
   /\ Idle /\ AllowPop /\ rxMap[e] # {}
